@@ -681,6 +681,11 @@ class LayoutTyper(Structured):
                 if D is not None and isinstance(f.value, ast.Name) and self.kinds.get(f.value.id) == 'array_of':
                     return V('arr', D, deps={f.value.id})
                 return UNK
+            if recv.kind == 'unk' and name == 'expand' and len(e.args) == 1 and not kw and not self.kinds.get(U(f.value)):
+                # X.expand(D): only factors are expanded, and the result is laid out by D whatever X's own order is
+                t = self.dom_term(e.args[0], env)
+                if t is not None:
+                    return V('fac', t, deps={U(f.value)})
             if recv.kind == 'fac':
                 D = recv.a
                 if name == 'expand' and len(e.args) == 1:
